@@ -4,6 +4,7 @@
 mod chansched;
 mod core;
 mod pingsched;
+mod runsched;
 mod sched;
 mod sig;
 mod timing;
@@ -18,6 +19,7 @@ fn main() {
         "pingsched" => pingsched::run(),
         "chansched" => chansched::run(),
         "sig" => sig::run(),
+        "runsched" => runsched::run(),
         "timing" => timing::run(),
         "core" => core::run(&args[2..]),
         "transient" => transient::run(),
